@@ -3,7 +3,7 @@ use std::fmt;
 use crate::compiler::codes;
 use crate::compiler::state::{TypeInfo, TypeState};
 use crate::compiler::{
-    Context, Expression, TypeDef,
+    Context, Expression, ExpressionError, TypeDef,
     expression::{self, Expr, Resolved},
     parser::{Node, ast},
     value::{ValueError, VrlValueArithmetic},
@@ -128,7 +128,16 @@ impl Expression for Op {
         use ast::Opcode::{Add, And, Div, Eq, Err, Ge, Gt, Le, Lt, Merge, Mul, Ne, Or, Sub};
 
         match self.opcode {
-            Err => return self.lhs.resolve(ctx).or_else(|_| self.rhs.resolve(ctx)),
+            Err => {
+                // Error coalescing handles runtime errors only: `abort` and `return`
+                // end the program and must not be intercepted.
+                return match self.lhs.resolve(ctx) {
+                    control @ std::result::Result::Err(
+                        ExpressionError::Abort { .. } | ExpressionError::Return { .. },
+                    ) => control,
+                    result => result.or_else(|_| self.rhs.resolve(ctx)),
+                };
+            }
             Or => {
                 return self
                     .lhs
